@@ -346,6 +346,9 @@ pub fn dangerous(region: &str) -> Vec<(String, Vec<u8>)> {
         v.push(("newch-delete3".into(), vec![0x07, 3, 0, 0, 0, 0x50]));
         v.push(("newch-delete0".into(), vec![0x07, 0, 0, 0, 0, 0x50]));
         v.push(("dlch-0".into(), vec![0x0A, 0, mid[0], mid[1], mid[2]]));
+        // (a downlink frequency on the created channel 3: a later redefinition of the channel has to drop it)
+        let lo = cmds::freq_bytes(f[2]);
+        v.push(("dlch-3".into(), vec![0x0A, 3, lo[0], lo[1], lo[2]]));
         // channel indices at the boundaries of the selection's draw width (9th and 16th slot), and masks that
         // leave only such a channel usable
         let hi = cmds::freq_bytes(f[3] + 200_000);
@@ -367,6 +370,8 @@ pub enum BEv {
     Up { confirmed: bool },
     Cmd { label: String, bytes: Vec<u8>, port0: bool },
     Junk(u8),
+    /// Class C: a junk frame heard while idle in rxc_listen
+    ListenJunk(u8),
     SetDr(u8),
     SetAdr(bool),
     Join { accept: Option<u8> },
@@ -407,6 +412,17 @@ impl System for BSys {
         for k in 0..4 {
             v.push(BEv::Junk(k));
         }
+        if let Some(ac) = &self.ac {
+            let listening = {
+                let g = ac.inner.borrow();
+                g.cur_max_len > 0 && !g.cur_single
+            };
+            if self.front == "async-c" && listening {
+                for k in 0..4 {
+                    v.push(BEv::ListenJunk(k));
+                }
+            }
+        }
         for d in defined_drs(&self.region) {
             v.push(BEv::SetDr(d));
         }
@@ -425,10 +441,23 @@ impl System for BSys {
                 _ => Frame::Raw(vec![0x60]),
             }
         };
+        if let (BEv::ListenJunk(k), Some(ac)) = (ev, &mut self.ac) {
+            let mut out = vec![];
+            if let Some(st) = ac.apply(&AEv::Listen { frames: vec![junk(*k)], fault_at: None }) {
+                if let AResp::Panic(p) = &st.resp {
+                    let (s, w) = classify_at(p, &self.front, "junk-while-listening", &region, &st.before);
+                    out.push(V { sig: s, what: w });
+                }
+                // (a rejected frame leaves rxc_listen waiting: Blocked is the normal answer)
+                self.outcome = format!("listen:{}", short_aresp(&st.resp));
+            }
+            return out;
+        }
         let e: Ev = match ev {
             BEv::Up { confirmed } => Ev::Cycle { confirmed: *confirmed, port: 1, len: 1, rx1: None, rx2: None },
             BEv::Cmd { bytes, port0, .. } => cycle_with(if *port0 { down(vec![], bytes.clone()) } else { down(bytes.clone(), vec![]) }),
             BEv::Junk(k) => Ev::Cycle { confirmed: false, port: 1, len: 1, rx1: Some(junk(*k)), rx2: Some(junk((*k + 1) % 4)) },
+            BEv::ListenJunk(_) => unreachable!(),
             BEv::SetDr(d) => Ev::SetDr(*d),
             BEv::SetAdr(a) => Ev::SetAdr(*a),
             BEv::Join { accept } => {
@@ -456,6 +485,7 @@ impl System for BSys {
             BEv::Cmd { label, .. } => label.clone(),
             BEv::Up { .. } => "uplink".into(),
             BEv::Junk(_) => "junk-frames".into(),
+            BEv::ListenJunk(_) => "junk-while-listening".into(),
             BEv::SetDr(_) => "set_datarate".into(),
             BEv::SetAdr(_) => "set_adr".into(),
             BEv::Join { .. } => "join".into(),
@@ -665,7 +695,39 @@ pub fn run(tier: Tier, replay: Option<&str>) {
             }
         }
     }
+    // ---- Layer C: long runs of unanswered join attempts (the walk over the join channels of the fixed plans
+    // keeps state that only shows after many attempts), with and without a join bias
+    let mut join_runs = 0u64;
+    for region in regions.iter().filter(|r| is_fixed(r)) {
+        for bias in [None, Some((2u8, 1usize)), Some((2, 2)), Some((2, 8)), Some((8, 4)), Some((1, 20))] {
+            for front in ["nb", "async"] {
+                let mut dev = DevCfg::otaa(region);
+                dev.bias = bias;
+                let bc = BCfg { front: front.into(), dev: dev.clone() };
+                let mut sys = BSys::new(front, &dev);
+                let mut hist = vec![];
+                for _ in 0..(if th { 400 } else { 150 }) {
+                    let ev = BEv::Join { accept: None };
+                    hist.push(ev.clone());
+                    let vs = explore::System::step(&mut sys, &ev);
+                    transitions += 1;
+                    ctx.tick(1);
+                    if !vs.is_empty() {
+                        for v in vs {
+                            ctx.violation(v.sig, v.what, json!({"cfg": serde_json::to_value(&bc).unwrap(), "history": serde_json::to_value(&hist).unwrap()}), hist.len());
+                        }
+                        break;
+                    }
+                    if !explore::System::alive(&sys) {
+                        break;
+                    }
+                }
+                join_runs += 1;
+            }
+        }
+    }
     let coverage = json!({
+        "join_runs": join_runs,
         "states": states + seen.lock().unwrap().len() as u64,
         "transitions": transitions + cases_a.load(Ordering::Relaxed),
         "traces_validated_against_impl": transitions + cases_a.load(Ordering::Relaxed),
@@ -675,7 +737,7 @@ pub fn run(tier: Tier, replay: Option<&str>) {
         ],
         "evaluations": ctx.evals(),
         "distinct_nontrivial": states + seen.lock().unwrap().len() as u64,
-        "rule": "Layer A: for every region x {ABP,OTAA} x base state x front-end, one authentic downlink (FOpts and port 0) carrying one command with its full value domain (LinkADRReq DR x TXPower x ChMaskCntl x mask patterns x NbTrans x RFU bit and 2-3 command blocks; RXParamSetupReq all 256 DLSettings x frequency set; RXTimingSetupReq / TXParamSetupReq / DutyCycleReq all 256; NewChannelReq index x frequency set x DrRange bytes; DlChannelReq; every CID 0..255 with 0..5 trailing bytes) or one JoinAccept (all 256 DLSettings x RxDelay x CFList variants); every distinct resulting MAC snapshot is followed by two uplinks with the first RNG draw enumerated over 0..63. Layer B: BFS over histories (uplinks, commands that delete channels / shrink the mask / change DR, junk and oversized frames, set_datarate for region-defined rates, set_adr, joins with minimal CFLists, ADR back-off from a pre-loaded counter). states = distinct post-command snapshots (A) + distinct canonical states (B)",
+        "rule": "Layer A: for every region x {ABP,OTAA} x base state x front-end, one authentic downlink (FOpts and port 0) carrying one command with its full value domain (LinkADRReq DR x TXPower x ChMaskCntl x mask patterns x NbTrans x RFU bit and 2-3 command blocks; RXParamSetupReq all 256 DLSettings x frequency set; RXTimingSetupReq / TXParamSetupReq / DutyCycleReq all 256; NewChannelReq index x frequency set x DrRange bytes; DlChannelReq; every CID 0..255 with 0..5 trailing bytes) or one JoinAccept (all 256 DLSettings x RxDelay x CFList variants); every distinct resulting MAC snapshot is followed by two uplinks with the first RNG draw enumerated over 0..63. Layer B: BFS over histories (uplinks, commands that delete channels / shrink the mask / change DR, junk and oversized frames, set_datarate for region-defined rates, set_adr, joins with minimal CFLists, ADR back-off from a pre-loaded counter). Layer C: runs of 150 (thorough: 400) consecutive unanswered join attempts on the fixed plans for each join-bias setting. states = distinct post-command snapshots (A) + distinct canonical states (B)",
         "layer_a_cases": cases_a.load(Ordering::Relaxed),
         "layer_a_followups": followups.load(Ordering::Relaxed),
         "layer_b_depth": depth,
